@@ -5,7 +5,11 @@ From SC Require Import Lib.Prelude Lib.Int Lib.Host Model.FeeForwarder Run.C19.
 (* addresses: 0 permissioned forwarder, 1 permissionless forwarder, 2 / 3 fee tokens, 5 target,
    7 user, 9 relayer (executor), 11 manager *)
 Definition ex_cfg : cfg :=
-  Cf 1 1000 100 0%N 1%N [9%N] [11%N] [2%N] [5%N] [7%N; 9%N; 0%N; 1%N] [7%N] [0%N; 1%N] [2%N; 3%N].
+  Cf 1 1000 100 0%N 1%N [9%N] [11%N] [2%N] [5%N] [7%N; 9%N; 0%N; 1%N] [7%N; 9%N] [0%N; 1%N] [2%N; 3%N].
+(* the same world, but the header does not list the user among the allowance owners / lists nothing *)
+Definition ex_cfg_noowner : cfg :=
+  Cf 1 1000 100 0%N 1%N [9%N] [11%N] [2%N] [5%N] [7%N; 9%N; 0%N; 1%N] [] [0%N; 1%N] [2%N; 3%N].
+Definition ex_cfg_empty : cfg := Cf 1 1000 100 0%N 1%N [9%N] [11%N] [2%N] [5%N] [] [] [] [].
 
 Definition ex_auth (F : addr) (fee max exp : Z) (v : Z) : list entry :=
   [En 9%N (Fn F F_FORWARD (forward_args 2%N fee max exp 5%N F_HIT [AI v] 7%N 9%N)) [];
@@ -31,7 +35,26 @@ Definition ex_calls : list call :=
     Forward Permissioned 2%N 5 10 130 5%N F_HIT [AI 4] 7%N 9%N (ex_auth 0%N 5 10 130 4);
     Advance 50;
     Forward Permissionless 2%N 5 30 200 5%N F_PULL (ex_pull 1) 7%N 9%N (ex_auth_g 1%N 5 30 200 F_PULL (ex_pull 1));
-    Forward Permissionless 2%N 5 30 200 5%N F_PULL (ex_pull 0) 7%N 9%N (ex_auth_g 1%N 5 30 200 F_PULL (ex_pull 0)) ].
+    Forward Permissionless 2%N 5 30 200 5%N F_PULL (ex_pull 0) 7%N 9%N (ex_auth_g 1%N 5 30 200 F_PULL (ex_pull 0));
+    (* 11-13: re-list token 2, a long allowance, then a LAZY forward that finds it sufficient (no approval,
+       no approve sub-invocation) and whose target requires the user's authorisation (auth_hit) *)
+    SetTok true 2%N 11%N (ex_mgr F_ENABLE 2%N);
+    Approve 2%N 7%N 0%N 500 400 [En 7%N (Fn 2%N F_APPROVE (approve_args 7%N 0%N 500 400)) []];
+    Forward Permissioned 2%N 7 50 300 5%N F_AUTH [AA 7%N; AI 5] 7%N 9%N
+      [En 9%N (Fn 0%N F_FORWARD (forward_args 2%N 7 50 300 5%N F_AUTH [AA 7%N; AI 5] 7%N 9%N)) [];
+       En 7%N (Fn 0%N F_FORWARD (user_args 2%N 50 300 5%N F_AUTH [AA 7%N; AI 5])) [Fn 5%N F_AUTH [VA 7%N; VI 5]]];
+    (* 14: the manager sweeps the collected fees *)
+    Sweep 2%N 9%N 11%N [En 11%N (Fn 0%N F_SWEEP [VA 2%N; VA 9%N; VA 11%N]) []];
+    (* 15: user = relayer (two entries signed by the same account) *)
+    Forward Permissionless 2%N 3 3 300 5%N F_HIT [AI 8] 9%N 9%N
+      [En 9%N (Fn 1%N F_FORWARD (forward_args 2%N 3 3 300 5%N F_HIT [AI 8] 9%N 9%N)) [];
+       En 9%N (Fn 1%N F_FORWARD (user_args 2%N 3 300 5%N F_HIT [AI 8])) [Fn 2%N F_APPROVE (approve_args 9%N 1%N 3 300)]];
+    (* 16: the TARGET IS THE FEE TOKEN: the user signs forward(.., target = token, transfer_from,
+       (forwarder, user, 0, 25)): the forwarder itself moves the residual allowance max - fee = 25 *)
+    Forward Permissionless 2%N 5 30 300 2%N F_TRANSFER_FROM [AA 1%N; AA 7%N; AA 0%N; AI 25] 7%N 9%N
+      [En 9%N (Fn 1%N F_FORWARD (forward_args 2%N 5 30 300 2%N F_TRANSFER_FROM [AA 1%N; AA 7%N; AA 0%N; AI 25] 7%N 9%N)) [];
+       En 7%N (Fn 1%N F_FORWARD (user_args 2%N 30 300 2%N F_TRANSFER_FROM [AA 1%N; AA 7%N; AA 0%N; AI 25]))
+              [Fn 2%N F_APPROVE (approve_args 7%N 1%N 30 300)]] ].
 
 Definition ex_trace : trace := observe_model ex_cfg ex_calls.
 Definition outcomes (t : trace) : list (res Z) := map (fun it : item => snd (fst it)) (snd t).
@@ -84,6 +107,15 @@ Definition map_user_root (g : list val -> list val) (cl : call) : call :=
         (map (fun e => if N.eqb (en_who e) user
                        then En (en_who e) (Fn (f_contract (en_root e)) (f_name (en_root e)) (g (f_args (en_root e)))) (en_subs e)
                        else e) au)
+  | _ => cl
+  end.
+(* the approve hangs as a separate ROOT entry of the user instead of under the forward tree *)
+Definition approve_as_root (cl : call) : call :=
+  match cl with
+  | Forward k tok fee max exp tg fn args user relayer au =>
+      Forward k tok fee max exp tg fn args user relayer
+        (map (fun e => En (en_who e) (en_root e) []) au
+         ++ flat_map (fun e => map (fun s => En (en_who e) s []) (en_subs e)) au)
   | _ => cl
   end.
 Definition drop_subs (cl : call) : call :=
